@@ -389,13 +389,21 @@ def run_cross(acc):
 
                     x = mk_obj(A, left_kind, dimless=(opn == "**"))
                     y = mk_obj(B, right_kind, dimless=(opn == "**"))
-                    acc.ev()
-                    acc.nt(("cross", pname, mk, opn, left_kind, right_kind))
-                    o = call(lambda: fn(x, y))
-                    case = {"registries": pname, "magnitude": mk, "operator": opn, "operands": [left_kind, right_kind]}
-                    if not (o[0] == "exc" and o[1].startswith("ValueError")):
-                        acc.violation(["isolation", opn, "objects-of-different-registries-combine-or-raise-something-else", pname], case, "ValueError", o[1] if o[0] == "exc" else show(o[1]))
-                    acc.outcome("refused" if o[0] == "exc" else "combined")
+                    # the second operand may also have been BUILT from pieces of the first one (its Unit, its unit
+                    # container): it still belongs to registry B
+                    variants = [("built-from-a-string", y)]
+                    if right_kind == "Q" and left_kind == "Q":
+                        val = np.array([2.0, 3.0]) if mk == "array" else 2.0
+                        variants.append(("built-from-the-other-registry's-Unit", B.Quantity(val, x.units)))
+                        variants.append(("built-from-the-other-registry's-container", B.Quantity(val, x._units)))
+                    for vname, yv in variants:
+                        acc.ev()
+                        acc.nt(("cross", pname, mk, opn, left_kind, right_kind, vname))
+                        o = call(lambda: fn(x, yv))
+                        case = {"registries": pname, "magnitude": mk, "operator": opn, "operands": [left_kind, right_kind], "second_operand": vname}
+                        if not (o[0] == "exc" and o[1].startswith("ValueError")):
+                            acc.violation(["isolation", opn, "objects-of-different-registries-combine-or-raise-something-else", pname], case, "ValueError", o[1] if o[0] == "exc" else show(o[1]))
+                        acc.outcome("refused" if o[0] == "exc" else "combined")
     acc.sample({"clause": "isolation", "registries": "source/deepcopy", "operator": "+", "operands": ["Q", "Q"]})
 
 
@@ -700,7 +708,7 @@ MANIFEST = {
     "system, lazily register a prefixed unit, cache-filling queries — are replayed on a generated registry; the source and the copy must each answer 9 probes like a fresh registry that saw only its own events, "
     "and share no mutable state. Exhaustive: 5 object kinds x 10 unit expressions (with prefixed units registered lazily) x 8 magnitude types (incl. 0-d, 1-d and 2-d ndarrays) x {pickle 0-5, copy, deepcopy, tuple, Quantity(q)} in float/Fraction/Decimal "
     "registries; a copy / deepcopy / Quantity(q) of an array-valued quantity is a snapshot: 4 in-place operations (*=, +=, ito_root_units, a write into the buffer) on either object leave the other unchanged; all those pickles loaded in a fresh interpreter (attached to the application registry, prefixed units registered first, magnitudes intact); every exception class x every argument tuple over an alphabet with the falsy look-alikes of each position ("", empty container, 0, None, empty tuple) plus 10 instances as raised by the library (about 450 instances) x "
-    "8 ways (type, fields, args, message); 14 operators x {Quantity, Unit} operand kinds x scalar/array x 4 registry-pair kinds (fresh/fresh, source/deepcopy, deepcopy/source, application/explicit) must raise "
+    "8 ways (type, fields, args, message); 14 operators x {Quantity, Unit} operand kinds (the second operand also built from the first registry's Unit or unit container) x scalar/array x 4 registry-pair kinds (fresh/fresh, source/deepcopy, deepcopy/source, application/explicit) must raise "
     "ValueError; every sequence of <= 3 changes of the application registry (set_application_registry or ApplicationRegistry.set) with a Quantity, Unit, Measurement and a prefixed quantity unpickled after each: they attach to the registry in force; the lazily built default registry equals an explicit one on 12 probes in fresh interpreters.",
     "note": "Trusted: pickle/copy themselves; the probe sets. == across registries is not asserted (the property names arithmetic and ordering). Duck arrays other than ndarray are outside.",
     "ref": "DESIGN.md §4 C18",
